@@ -73,6 +73,7 @@ func (c *Conn) Read(p []byte) (int, error) {
 		if len(h.buf) > 0 {
 			n := copy(p, h.buf)
 			h.buf = h.buf[n:]
+			h.cv.Broadcast() // room for a writer held by the window
 			return n, nil
 		}
 		if h.wclosed {
@@ -95,11 +96,25 @@ func (c *Conn) Write(p []byte) (int, error) {
 	if h.rclosed {
 		return 0, &net.OpError{Op: "write", Net: "mem", Err: syscall.EPIPE}
 	}
+	// a connection holds at most PipeWindow unread bytes (like a socket buffer): a writer whose peer does not read
+	// is held, and fails when the peer closes
+	for len(h.buf) >= PipeWindow {
+		h.cv.Wait()
+		if h.wclosed {
+			return 0, net.ErrClosed
+		}
+		if h.rclosed {
+			return 0, &net.OpError{Op: "write", Net: "mem", Err: syscall.EPIPE}
+		}
+	}
 	h.buf = append(h.buf, p...)
 	h.total += int64(len(p))
 	h.cv.Broadcast()
 	return len(p), nil
 }
+
+// PipeWindow is the number of unread bytes a connection buffers before writers are held.
+const PipeWindow = 64 << 10
 
 // Close closes both directions: the peer reads EOF (after buffered data) and
 // its writes fail.
